@@ -32,7 +32,7 @@ import sys
 assert sys.version_info >= (3, 0)  # Bomb out if not running Python3
 
 
-import operator, time, traceback, uuid, fnmatch, opentracing
+import copy, operator, time, traceback, uuid, fnmatch, opentracing
 
 from datetime import datetime, timezone, timedelta
 from aioprometheus import Counter, Histogram
@@ -429,7 +429,8 @@ class StateEngine(object):
         https://docs.aws.amazon.com/step-functions/latest/dg/input-output-contextobject.html
         """
         if "Input" not in execution:
-            execution["Input"] = data
+            # A copy, as the states update the event's data in place (ResultPath).
+            execution["Input"] = copy.deepcopy(data)
 
         if "RoleArn" not in execution:
             """
